@@ -61,6 +61,7 @@ func runC20(c *Ctx, r *Report) {
 	c20WriterState(c, r, fn)
 	c20LRULinks(c, r)
 	c20SplitPassThrough(c, r)
+	c20CloseLoops(c, r)
 }
 
 // ---- R20.1 -------------------------------------------------------------------
@@ -1199,4 +1200,73 @@ func c20SplitPassThrough(c *Ctx, r *Report) {
 			fmt.Sprintf("%s can return successfully at %s for a record without having consulted the pass-through option or appended the record to the output: with -v such records leave the main stream", SSAName(fn), bad))
 	}
 	r.Floor("R20.10", "per-mode record functions of split", n, 3)
+}
+
+// R20.11: a loop that closes things closes all of them. A loop whose body
+// calls Close() on what it walks leaves only through its condition: a return
+// or break after one element's error leaves the others open, and what their
+// buffers hold is lost.
+func c20CloseLoops(c *Ctx, r *Report) {
+	r.Rule("R20.11", "a loop that closes things closes all of them: in the output layer, the DSL's root and redirect nodes, the verbs and the stream driver, a loop whose body calls a Close method leaves only through its header — no return and no break on one element's error (the errors are collected) — so that every manager and handler is flushed and closed at end of stream even when another one failed")
+	n := 0
+	for _, fn := range c.ModuleFunctions() {
+		if fn.Pkg == nil || fn.Blocks == nil {
+			continue
+		}
+		pp := fn.Pkg.Pkg.Path()
+		if !(strings.HasSuffix(pp, "/pkg/output") || strings.HasSuffix(pp, "/pkg/dsl/cst") || strings.Contains(pp, "/pkg/transformers") || strings.HasSuffix(pp, "/pkg/stream") || strings.HasSuffix(pp, "/pkg/entrypoint")) {
+			continue
+		}
+		loops := naturalLoops(fn)
+		k := 0
+		for _, l := range loops {
+			closes := token.NoPos
+			for b := range l.Blocks {
+				for _, in := range b.Instrs {
+					call, ok := in.(ssa.CallInstruction)
+					if !ok {
+						continue
+					}
+					if _, isDefer := in.(*ssa.Defer); isDefer {
+						continue
+					}
+					name := ""
+					if call.Common().IsInvoke() {
+						name = call.Common().Method.Name()
+					} else if sc := call.Common().StaticCallee(); sc != nil && sc.Signature.Recv() != nil {
+						name = sc.Name()
+					}
+					if name == "Close" && innermostLoop(loops, b) == l {
+						closes = in.Pos()
+					}
+				}
+			}
+			if closes == token.NoPos {
+				continue
+			}
+			n++
+			k++
+			bad := ""
+			for b := range l.Blocks {
+				if b == l.Header {
+					continue
+				}
+				for _, s := range b.Succs {
+					if !l.Blocks[s] {
+						bad = c.Rel(b.Instrs[len(b.Instrs)-1].Pos())
+						if bad == "" {
+							bad = "block " + b.String()
+						}
+					}
+				}
+				if _, ok := b.Instrs[len(b.Instrs)-1].(*ssa.Return); ok {
+					bad = c.Rel(b.Instrs[len(b.Instrs)-1].Pos())
+				}
+			}
+			key := fmt.Sprintf("%s: closing loop #%d", SSAName(fn), k)
+			r.Check(bad == "", "R20.11", key, c.Rel(closes), "leaves only through its header",
+				fmt.Sprintf("%s closes things in a loop that can be left from inside (%s): after one element's Close fails the remaining ones are never closed, and what they have buffered is lost", SSAName(fn), bad))
+		}
+	}
+	r.Floor("R20.11", "loops that call Close", n, 2)
 }
